@@ -2,6 +2,7 @@
 C20 — A backup opens to the same log.
 -/
 import Klev.Proofs.Backup
+import Klev.Proofs.BackupIncProofs
 import Klev.Proofs.Witness
 namespace Klev.C20
 
@@ -21,6 +22,48 @@ theorem append_extends (l : Log) (hinv : Inv l) (hro : l.opts.readonly = false)
     (batch : List (Int × List UInt8 × List UInt8)) :
     (abs l).live <+: (abs (l.publish batch).1).live :=
   Klev.append_extends l hinv hro batch
+
+/-! ### repeated backup into the same directory
+
+`Klev/BackupInc.lean`: `Segment.Backup` copies the files of every segment over what the target
+holds; `copyFile` skips an existing file of the same size *and* modification time. The
+modification time is runtime behaviour; the model lets an arbitrary oracle decide for every
+existing target file of the **same size** whether it is skipped (the real rule skips in a subset
+of those cases). -/
+
+open Klev.BackupInc in
+/-- **Repeated backup**: after any number of publishes (any batches, any rollovers), a backup over
+the previous backup gives exactly the files of the source — whatever the oracle skips: while a
+log is only appended to, a file of the same size is the same file. -/
+theorem backup_repeat (l : Log) (hinv : Inv l) (hrw : l.opts.readonly = false)
+    (bs : List (List (Int × List UInt8 × List UInt8))) (o : Oracle) :
+    backupInto l.opts.params o (publishes l bs).disk l.disk = (publishes l bs).disk :=
+  Klev.BackupInc.backup_repeat_log l hinv hrw bs o
+
+open Klev.BackupInc in
+/-- … hence it is a clean directory (every Check passes) that opens, with any options, to a log with
+the invariant and the live messages and NextOffset of the source at the time of the second call. -/
+theorem backup_repeat_opens_same (l : Log) (hinv : Inv l) (hrw : l.opts.readonly = false)
+    (bs : List (List (Int × List UInt8 × List UInt8))) (o : Oracle) (oo : OpenOpts) (l' : Log)
+    (h : Log.open (backupInto l.opts.params o (publishes l bs).disk l.disk) oo = .ok l') :
+    Inv l' ∧ abs l' = abs (publishes l bs) :=
+  Klev.BackupInc.backup_repeat_opens_same l hinv hrw bs o oo l' h
+
+open Klev.BackupInc in
+/-- The first backup, into an empty directory, is a copy. -/
+theorem backup_first (p : Params) (o : Oracle) (d : List SegDisk) : backupInto p o d [] = d :=
+  Klev.BackupInc.backup_first p o d
+
+open Klev.BackupInc in
+/-- **Why the property restricts repeated backups to appended-only sources**: a record replaced by a
+different one of the same size (which no sequence of appends does) survives in the target when the
+oracle skips same-size files. -/
+theorem stale_file_survives :
+    backupInto ⟨false, false⟩ skipAll staleB staleA ≠ staleB ∧
+    backupInto ⟨false, false⟩ skipAll staleB staleA = staleA ∧
+    backupInto ⟨false, false⟩ copyAll staleB staleA = staleB ∧ ¬ Extends staleA staleB :=
+  ⟨Klev.BackupInc.stale_file_survives.1, Klev.BackupInc.stale_file_survives.2.1,
+   Klev.BackupInc.stale_file_survives.2.2, Klev.BackupInc.stale_not_extends⟩
 
 end Klev.C20
 
@@ -45,8 +88,19 @@ example : (wRW.consume 3 2).2 = (wL.consume 3 2).2 ∧ (wRW.get 7).2 = (wL.get 7
 example : (abs (wL.publish [(60, [9], [9]), (61, [], [])]).1).live.map (·.off) = [0, 1, 2, 4, 5, 6, 8, 9, 10] := by
   decide
 
+-- a repeated backup after two more publishes (the second rolls over), the oracle skipping every same-size file
+example := Klev.C20.backup_repeat Klev.BackupInc.exL Klev.BackupInc.exL_inv Klev.BackupInc.exL_rw Klev.BackupInc.exBs
+  Klev.BackupInc.skipAll
+example : Klev.BackupInc.backupInto Klev.BackupInc.exL.opts.params Klev.BackupInc.skipAll
+    (Klev.BackupInc.publishes Klev.BackupInc.exL Klev.BackupInc.exBs).disk Klev.BackupInc.exL.disk =
+    (Klev.BackupInc.publishes Klev.BackupInc.exL Klev.BackupInc.exBs).disk := by decide
+
 end NonVacuity
 
 #print axioms Klev.C20.backup_clean
 #print axioms Klev.C20.backup_opens_same
 #print axioms Klev.C20.append_extends
+#print axioms Klev.C20.backup_repeat
+#print axioms Klev.C20.backup_repeat_opens_same
+#print axioms Klev.C20.backup_first
+#print axioms Klev.C20.stale_file_survives
